@@ -173,6 +173,14 @@ func c18Rid(r page.RID, keys []types.Value) *c18Fail {
 	return nil
 }
 
+// guarded runs one evaluation; a panic inside the library's encoder/decoder is a verdict of its own.
+func guarded(kind string, fn func() *c18Fail) (out *c18Fail) {
+	if f := guard(func() { out = fn() }); f != nil {
+		return &c18Fail{kind + "-panic", "the encoder/decoder panics: " + f.String()}
+	}
+	return out
+}
+
 func c18Run(c *core.Ctx) {
 	res := c.Res
 	fail := func(f *c18Fail, input any) {
@@ -208,7 +216,7 @@ func c18Run(c *core.Ctx) {
 				hi = r[1]
 			}
 			for x := lo; x <= hi; x++ {
-				if f := c18Int(int32(x)); f != nil {
+				if f := guarded("int", func() *c18Fail { return c18Int(int32(x)) }); f != nil {
 					fail(f, x)
 					break
 				}
@@ -218,7 +226,7 @@ func c18Run(c *core.Ctx) {
 	}
 	if !c.Thorough() && c.Mine(0) {
 		for x := int64(math.MinInt32); x <= math.MaxInt32; x += 1 << 12 {
-			if f := c18Int(int32(x)); f != nil {
+			if f := guarded("int", func() *c18Fail { return c18Int(int32(x)) }); f != nil {
 				fail(f, x)
 				break
 			}
@@ -253,7 +261,7 @@ func c18Run(c *core.Ctx) {
 				hi = r[1]
 			}
 			for b := lo; b <= hi; b++ {
-				if f := c18Float(uint32(b)); f != nil {
+				if f := guarded("float", func() *c18Fail { return c18Float(uint32(b)) }); f != nil {
 					fail(f, b)
 					break
 				}
@@ -263,7 +271,7 @@ func c18Run(c *core.Ctx) {
 	}
 	if !c.Thorough() && c.Mine(1) {
 		for b := uint64(0); b <= math.MaxUint32; b += 1 << 12 {
-			if f := c18Float(uint32(b)); f != nil {
+			if f := guarded("float", func() *c18Fail { return c18Float(uint32(b)) }); f != nil {
 				fail(f, b)
 				break
 			}
@@ -352,7 +360,7 @@ func c18Run(c *core.Ctx) {
 		if !c.Mine(i >> 8) {
 			continue
 		}
-		if f := c18Rid(r, keys); f != nil {
+		if f := guarded("rid", func() *c18Fail { return c18Rid(r, keys) }); f != nil {
 			fail(f, r)
 			break
 		}
